@@ -9,6 +9,17 @@ MODELLED = ('Trusted: Coq 8.16.1 kernel (no axioms: every theorem in coq/Props/%
             'the Python harness abstraction/canonicalisation. ')
 
 CHECKS = {
+    'C17': dict(
+        text='Theorems over the model of the flag -> keyword translation (contradictory options <-> exit, the documented '
+             'defaults for per-constraint flags and output fields, pass-through of the rest); the model is compared with '
+             'the real verify_flags/detect_flags on every flag combination (exhaustive). End to end, tdda discover / '
+             'verify / detect are run as subprocesses on generated CSV and parquet files (incl. stdin) and compared with '
+             'the library on the frame loaded from the same file; error invocations must exit non-zero and leave nothing.',
+        note='partial: agreement of the two code paths on real files (pandas/pyarrow loading and saving, argparse, '
+             'process exit) is differential testing, not a theorem.',
+        technique='Coq proof (flag table by case analysis) + exhaustive correspondence with flags.py + subprocess '
+                  'differential runs',
+        design='7 C17'),
     'C08': dict(
         text='Theorems: closure of the shared discovery/verification logic (as C01), the SQL string-literal quoting '
              'round trip for every expression text, and for each perturbation class (beyond min/max, wrong sign, '
